@@ -107,9 +107,31 @@ def find_eval_of_x(evals, x, ulps=4):
     return [e for e in evals if e.xl is not None and x_matches(e.xl, list(x), ulps)], False
 
 
+def args_clause(rec, prop, st):
+    """Every user function is called with the extra arguments the user stated for it (otherwise the values
+    the solver works with, and the violation it reports, are those of another problem)."""
+    stmt = rec.stmt
+    for e in rec.events:
+        if e.get("probe"):
+            continue
+        if e["k"] == "obj":
+            want = (stmt.get("obj") or {}).get("args") or []
+        elif e["k"] == "con":
+            ns = stmt["nonlinear"][e["j"]]
+            want = (ns.get("args") or []) if ns.get("form") == "dict" else []
+        else:
+            continue
+        st[prop.lower() + ".args_checked"] += 1
+        if [float(a) for a in want] != e.get("args", []):
+            name = "objective" if e["k"] == "obj" else "constraint function %d" % e["j"]
+            return [Viol(prop, "args", "%s was called with extra arguments %r, the user stated %r"
+                         % (name, e.get("args"), want), key="wrong_args")]
+    return []
+
+
 def c02(rec, st):
-    out = []
-    if rec.res is None:
+    out = args_clause(rec, "C02", st)
+    if rec.res is None or out:
         return out
     res = rec.res
     stmt = rec.stmt
@@ -308,7 +330,7 @@ def c05(rec, st):
 # C06 user functions called once per evaluation, never behind the scenes
 # ---------------------------------------------------------------------------
 def c06(rec, st):
-    out = []
+    out = args_clause(rec, "C06", st)
     stmt = rec.stmt
     n = stmt["n"]
     has_obj = stmt.get("obj") is not None
@@ -492,6 +514,12 @@ def c07(rec, st):
 # ---------------------------------------------------------------------------
 def c08(rec, st):
     out = []
+    if getattr(rec, "hang", None):
+        out.append(Viol("C08", "f", "no progress: %s" % rec.hang, key="no_progress"))
+        return out
+    if getattr(rec, "steps", None):
+        st["c08.f_traced_worlds"] += 1
+        st["c08.f_line_steps"] += rec.steps["total"]
     if rec.exc is not None:
         out.append(Viol("C08", "a", "minimize raised %s: %s (in %s)" % (rec.exc["type"], rec.exc["msg"], rec.exc["frame"]),
                         key="%s@%s" % (rec.exc["type"], rec.exc["frame"]), data={"tb": rec.exc["tb"]}))
@@ -556,6 +584,9 @@ def c08(rec, st):
 def c09(rec, st):
     out = []
     if rec.res is None:
+        if rec.exc is not None and rec.ctx.cb_raised:
+            out.append(Viol("C09", "a", "the callback raised StopIteration but minimize raised %s instead of returning "
+                            "status 3" % rec.exc["type"], key="exception_instead_of_status3"))
         return out
     stmt, res = rec.stmt, rec.res
     if not consistent(stmt) or n_free_of(stmt) == 0:
@@ -878,6 +909,19 @@ def c18_inrun(rec, st):
                 out.append(Viol("C18", "d", "the centre has merit %r but interpolation point %d has merit %r"
                                 % (mb, merits.index(mmin), mmin), key="centre"))
                 return out
+            # ties go to the smaller violation.  Evaluated for exact ties at zero penalty only, where the merit
+            # value is the recorded objective value itself and no rounding of ours can create or hide a tie.
+            viols = it.get("viols")
+            if pen == 0.0 and viols:
+                vb = viols[it["best"]]
+                for k in range(npt):
+                    if k != it["best"] and merits[k] == mb:
+                        st["c18.d_ties_checked"] += 1
+                        if viols[k] < vb * (1.0 - 1e-9) - 1e-12:
+                            out.append(Viol("C18", "d", "points %d and %d tie on the merit value %r but the centre (%d) "
+                                            "has violation %r > %r" % (it["best"], k, mb, it["best"], vb, viols[k]),
+                                            key="tie_not_to_smaller_violation"))
+                            return out
     for rm in ps.removals:
         if rm["with_new"]:
             st["c18.e_checked"] += 1
